@@ -623,11 +623,27 @@ fn has_non_finite(v: &Value) -> bool {
     }
 }
 
+fn has_nan(v: &Value) -> bool {
+    match v {
+        Value::Float64Value(x) => x.is_nan(),
+        Value::Record(attrs, items) => {
+            attrs.iter().any(|a| has_nan(&a.value))
+                || items.iter().any(|i| match i {
+                    Item::ValueItem(v) => has_nan(v),
+                    Item::Slot(k, v) => has_nan(k) || has_nan(v),
+                })
+        }
+        _ => false,
+    }
+}
+
 fn run_model(ctx: &mut Ctx<'_>, case: &Case, v: &Value, source: Source) {
-    if has_non_finite(v) {
-        ctx.count("skipped_non_finite_values", 1);
+    if has_nan(v) {
+        // NaN is not equal to itself: "reads back equal" is undefined for it.
+        ctx.count("skipped_nan_values", 1);
         return;
     }
+    let inf_tag = if has_non_finite(v) { ":infinite_float" } else { "" };
     for k in PRINTERS {
         let t = match k.print(v) {
             Ok(t) => t,
@@ -640,21 +656,21 @@ fn run_model(ctx: &mut Ctx<'_>, case: &Case, v: &Value, source: Source) {
         match (source, r) {
             (Source::Parsed, Err(e)) => ctx.violate(
                 "C09.roundtrip_typed",
-                &format!("parsed_value:{}:parse_error", k.name()),
+                &format!("parsed_value:{}:parse_error{inf_tag}", k.name()),
                 format!("value (produced by the parser)={} printed=`{}` does not parse: {}", show_dbg(v, 200), show(&t, 200), show(&e, 120)),
             ),
             (Source::Parsed, Ok(v2)) => {
                 if &v2 != v {
                     ctx.violate(
                         "C09.roundtrip_typed",
-                        &format!("parsed_value:{}:value_differs{}", k.name(), d4_tag(v)),
+                        &format!("parsed_value:{}:value_differs{}{inf_tag}", k.name(), d4_tag(v)),
                         format!("value (produced by the parser)={} printed=`{}` parsed back={}", show_dbg(v, 200), show(&t, 200), show_dbg(&v2, 200)),
                     );
                 }
             }
             (Source::Arbitrary, Err(e)) => ctx.violate(
                 "C09.fixed_point",
-                &format!("unparseable:{}", k.name()),
+                &format!("unparseable:{}{inf_tag}", k.name()),
                 format!("value={} printed=`{}` does not parse: {}", show_dbg(v, 200), show(&t, 200), show(&e, 120)),
             ),
             (Source::Arbitrary, Ok(v1)) => {
@@ -741,9 +757,14 @@ fn check_encoder<T: StructuralWritable + Debug>(ctx: &mut Ctx<'_>, v: &T, label:
 struct TypedRunner<'c, 'a> {
     ctx: &'c mut Ctx<'a>,
     case: &'c Case,
+    infinite_float: bool,
 }
 
 impl<'c, 'a> TypedVisitor for TypedRunner<'c, 'a> {
+    fn note_infinite_float(&mut self, present: bool) {
+        self.infinite_float = present;
+    }
+
     fn visit<T>(&mut self, type_name: &'static str, value: T, eq: fn(&T, &T) -> bool)
     where
         T: StructuralWritable + RecognizerReadable + Debug + Clone + Unpin,
@@ -760,14 +781,14 @@ impl<'c, 'a> TypedVisitor for TypedRunner<'c, 'a> {
             match check_text::<T>(self.ctx, self.case, type_name, &t, eq) {
                 Err(e) => self.ctx.violate(
                     "C09.roundtrip_typed",
-                    &format!("typed:{}:parse_error", k.name()),
+                    &format!("typed:{}:parse_error{}", k.name(), if self.infinite_float { ":infinite_float" } else { "" }),
                     format!("[{type_name}] value={} printed=`{}` does not parse: {}", show_dbg(&value, 200), show(&t, 200), show(&e, 120)),
                 ),
                 Ok(v2) => {
                     if !eq(&value, &v2) {
                         self.ctx.violate(
                             "C09.roundtrip_typed",
-                            &format!("typed:{}:value_differs", k.name()),
+                            &format!("typed:{}:value_differs{}", k.name(), if self.infinite_float { ":infinite_float" } else { "" }),
                             format!("[{type_name}] value={} printed=`{}` parsed back={}", show_dbg(&value, 200), show(&t, 200), show_dbg(&v2, 200)),
                         );
                     }
@@ -975,7 +996,7 @@ fn run_case(ctx: &mut Ctx<'_>, case: &Case) {
         Body::Typed(tv) => {
             ctx.rec("case", &format!("#{} typed {}", case.id, tv.type_name()));
             ctx.count("cases_typed", 1);
-            let mut runner = TypedRunner { ctx, case };
+            let mut runner = TypedRunner { ctx, case, infinite_float: false };
             tv.dispatch(&mut runner);
         }
         Body::Model(vj) => {
